@@ -401,6 +401,15 @@ def export_json(stats, verbose=0, category_filter=None, merchant_filter=None):
     transfers_total = abs(sum(d['total'] for d in by_merchant.values()
                               if 'transfer' in [t.lower() for t in d.get('tags', set())]))
 
+    # Income, credits and cash flow are the transaction-level figures that the HTML, Markdown
+    # and text outputs report (merchant-level sums net refunds against purchases and count
+    # income-tagged refunds twice), so that all formats agree
+    if 'income_total' in stats:
+        income_total = stats['income_total']
+    if 'credits_total' in stats:
+        credits_total = stats['credits_total']
+    net_cash_flow = stats['cash_flow'] if 'cash_flow' in stats else income_total - stats['total']
+
     output = {
         'summary': {
             'total_spending': round(stats['total'], 2),
@@ -410,7 +419,7 @@ def export_json(stats, verbose=0, category_filter=None, merchant_filter=None):
             'num_months': stats['num_months'],
             'income_total': round(income_total, 2),
             'transfers_total': round(transfers_total, 2),
-            'net_cash_flow': round(income_total - stats['total'], 2) if income_total > 0 else None,  # transfers excluded
+            'net_cash_flow': round(net_cash_flow, 2) if income_total > 0 else None,  # transfers excluded
         },
         'by_month': {month: {'total': round(total, 2)}
                      for month, total in sorted(by_month.items())},
